@@ -141,19 +141,19 @@ func checkC07(c *core.Ctx) {
 		c07Run(c, w.Witness.Scenario)
 		return
 	}
-	n := c.N(1500, 60000)
+	n := c.N(1500, 240000)
 	for idx := 0; idx < n; idx++ {
 		if c.Mine(idx) {
 			c07Run(c, c07Scenario(c, idx))
 		}
 	}
-	nh := c.N(100, 2000)
+	nh := c.N(100, 8000)
 	for idx := 0; idx < nh; idx++ {
 		if c.Mine(idx) {
 			c07Stored(c, idx)
 		}
 	}
-	for idx := 0; idx < c.N(100, 1000); idx++ {
+	for idx := 0; idx < c.N(100, 4000); idx++ {
 		if c.Mine(idx) {
 			c07SetRejected(c, idx)
 		}
